@@ -261,6 +261,33 @@ def lib_channel(channel, text, rid, knobs=None, seed=0):
 LIB_CHANNELS = ['lines_keepends', 'lines_noends', 'lines_tuple', 'lines_generator', 'stringio', 'realfile', 'simfile']
 
 
+ARGV_SHAPES = ['-r X files', '--renderer X files', '--renderer=X files', 'files -r X', '--rend X files', '-rX files']
+
+
+def build_argv(rid, files, knobs):
+    """The same request spelled the ways argparse accepts: short/long option, '=' form, option after the files,
+    unambiguous abbreviation, glued short option. '--' when a file name starts with '-' (then the option comes first)."""
+    files = list(files)
+    dashes = ['--'] if any(n.startswith('-') for n in files) else []
+    if rid == 'Html' and knobs.get('omit_r'):
+        return dashes + files
+    x = dotted(rid)
+    shape = knobs.get('argv_shape') or ARGV_SHAPES[0]
+    if dashes and shape == 'files -r X':
+        shape = ARGV_SHAPES[0]
+    if shape == '--renderer X files':
+        return ['--renderer', x] + dashes + files
+    if shape == '--renderer=X files':
+        return ['--renderer=' + x] + dashes + files
+    if shape == 'files -r X':
+        return files + ['-r', x]
+    if shape == '--rend X files':
+        return ['--rend', x] + dashes + files
+    if shape == '-rX files':
+        return ['-r' + x] + dashes + files
+    return ['-r', x] + dashes + files
+
+
 def cli_channel(scn):
     """
     Run the real command-line tool in this process against the simulated file system and sink.
@@ -282,10 +309,7 @@ def cli_channel(scn):
                       again_at=again_at, again_times=again_times)
     out = io.TextIOWrapper(io.BufferedWriter(sink, buffer_size=knobs['out_bufsize']), encoding=knobs['stdout_encoding'],
                            errors='strict', newline='', write_through=False)
-    dashes = ['--'] if any(n.startswith('-') for n in scn['argv_files']) else []
-    argv = ['-r', dotted(scn['R'])] + dashes + list(scn['argv_files'])
-    if scn['R'] == 'Html' and knobs.get('omit_r'):
-        argv = dashes + list(scn['argv_files'])
+    argv = build_argv(scn['R'], scn['argv_files'], knobs)
     # A real directory that mirrors the simulated one, as working directory: whatever else the tool asks the real file
     # system (glob, os.path.exists, pathlib) sees the same files the simulated open() serves.
     import shutil
